@@ -27,8 +27,15 @@ use swc_trace_macro::swc_trace;
 use thiserror::Error;
 use tracing::debug;
 
-static OPERATION_REGEX: Lazy<Regex> =
-    Lazy::new(|| Regex::new(r"\s*(entrypoint|field|pointer)\s*([^\.\s]+)\.([^\s\(]+)").unwrap());
+// This mirrors how isograph_lang_parser lexes the start of an iso literal: the keyword,
+// the type, the dot and the name are separate tokens which may be separated by (skipped)
+// whitespace, and the type and the name are identifiers.
+static OPERATION_REGEX: Lazy<Regex> = Lazy::new(|| {
+    Regex::new(
+        r"[\s\u{feff}]*(entrypoint|field|pointer)[\s\u{feff}]*([a-zA-Z_][a-zA-Z0-9_]*)[\s\u{feff}]*\.[\s\u{feff}]*([a-zA-Z_][a-zA-Z0-9_]*)",
+    )
+    .unwrap()
+});
 
 #[derive(Deserialize)]
 #[serde(deny_unknown_fields)]
